@@ -9,6 +9,7 @@ R11.2 the only GrammarAnalysisError variants constructed in grammar_trans are No
 R11.4 monotone change flags: in the fixpoint loops of the analyses (left recursion closure etc.) the `changed` flag is
       only accumulated (`|=`) or set to a constant inside nested loops - a necessary condition for reaching the fixpoint.
 R11.3 the public entry check_and_transform_grammar delegates with an empty ignore set.
+R11.6 the left-recursion scan takes nullability from Cfg::calculate_nullable_non_terminals.
 R11.5 sequences of symbols are not measured by set cardinality in the well-formedness analyses (hazard rule, expected count 0).
 Exactness of the computed sets (fixpoints over arbitrary grammars) is NOT decided.
 """
@@ -116,6 +117,7 @@ def check(ctx):
     # ---------------------------------------------------------------- R11.4
     monotone_change_flags(ctx, facts, "R11.4", ["parol::analysis", "parol::grammar", "parol::transformation"], 1)
     occurrence_counts(ctx, facts, "R11.5")
+    nullability_from_the_fixpoint(ctx, facts)
 
     # ---------------------------------------------------------------- R11.3
     cs = entry.calls_to(M + "check_and_transform_grammar_with_ignored")
@@ -235,3 +237,44 @@ def occurrence_counts(ctx, facts, rule):
               "no comparison of a locally built set's cardinality with a sequence length in %d bodies" % nbodies,
               "%d such comparison(s)" % n, nontrivial=False)
     ctx.require_floor(rule, "bodies_scanned", nbodies, 20)
+
+
+def nullability_from_the_fixpoint(ctx, facts, rule="R11.6"):
+    """R11.6 (added after seed C11-c) hidden left recursion is looked for behind *all* nullable non-terminals: in
+    detect_left_recursive_non_terminals every membership test that decides whether the scan of a right-hand side continues
+    behind a non-terminal (`contains` on a set of names) uses the result of Cfg::calculate_nullable_non_terminals - the fixpoint
+    that also finds non-terminals that are nullable only indirectly (B: C; C: ;) - and not a set assembled locally."""
+    from ..dataflow import operand_term
+    D = "parol::analysis::left_recursion::detect_left_recursive_non_terminals"
+    NUL = "parol::grammar::cfg::Cfg::calculate_nullable_non_terminals"
+    b = facts.body(D)
+    fam = facts.family(b)
+    src = [c for c in b.calls() if c.path == NUL]
+    n = 0
+    bad = []
+    for fb in fam:
+        for c in fb.calls():
+            nm = (c.path or "").split("::")[-1]
+            st = c.self_ty or ""
+            if nm != "contains" or not ("Set<" in st and "String" in st):
+                continue
+            # only the tests on a right-hand-side symbol matter: the looked-up name is the payload of a Symbol::N
+            from ..dataflow import raw_operand_place
+            ap = raw_operand_place(fb, c.args[1]) if len(c.args) > 1 else None
+            if not ap or not any(isinstance(e, list) and e[0] == "d" and e[1] == "N" for e in ap[1:]):
+                continue
+            t = operand_term(fb, c.args[0])
+            ok = t[0] == "call" and t[1].path == NUL
+            if not ok and t[0] in ("path", "local"):
+                # a named local / captured variable: its single definition
+                from ..dataflow import single_def
+                d = single_def(fb, t[1])
+                ok = bool(d and d[0] == "call" and d[3].path == NUL)
+            n += 1
+            if not ok:
+                bad.append(c.line)
+    ctx.check(bool(src) and n >= 1 and not bad, rule, "detect_left_recursive_non_terminals|nullables-from-fixpoint",
+              "the nullable test of the right-hand-side scan uses Cfg::calculate_nullable_non_terminals",
+              "detect_left_recursive_non_terminals decides 'continue behind this non-terminal' with a set that is not the result of "
+              "Cfg::calculate_nullable_non_terminals (lines %s): a non-terminal that is nullable only indirectly (B: C; C: ;) stops "
+              "the scan, the left recursion `A: B A \"x\"` behind it is not reported" % (bad or "none found"), where(b))
